@@ -20,6 +20,7 @@ Inductive progress :=
 | PHeaderCut      (* part of the header message *)
 | PPayloadCut     (* header complete, payload cut *)
 | PNoCtrl         (* payload complete, never opens the control connection (worker requests) *)
+| PChildDies      (* complete request and handshake, but the spawned child dies before reporting its identity *)
 | PGarbage        (* a complete message which is not a valid request *)
 | PComplete.
 
